@@ -251,8 +251,9 @@ Qed.
 
 Lemma inv_intr s i s' : Inv s -> step s (LIntr i) = Some s' -> Inv s'.
 Proof.
-  intros I H. simpl in H. brk H. inversion H; subst; clear H. tsk I E.
-  apply andb_prop in E0 as [E0 E2]. apply andb_prop in E0 as [E0 E1].
+  intros I H. simpl in H. brk H. destruct (s_intr s) eqn:SI; [|injection H as <-; exact I].
+  inversion H; subst; clear H. tsk I E.
+  apply andb_prop in E0 as [E0 E1].
   assert (forall w k, getw s w = Some k -> w_pc k = WCreated i -> t_phase (set_ret t) = PNew w).
   { intros w k Gk P. destruct (inv_workers _ I _ _ Gk) as (_ & _ & _ & _ & F). rewrite P in F.
     destruct F as ((t1 & F1 & F2) & _). rewrite E in F1; inversion F1; subst. auto. }
@@ -923,7 +924,8 @@ Section PROPS.
       - injection H as <-; auto.
       - destruct (step s0 l) as [s1|] eqn:E; try discriminate. apply (IH s1); auto.
         rewrite <- H0. clear - E. destruct l; simpl in E; brk E; injection E as <-; try reflexivity.
-        all: try (destruct i; reflexivity). all: try (destruct (s_inline s0); reflexivity). }
+        all: try (destruct i; reflexivity). all: try (destruct (s_inline s0); reflexivity).
+        all: try (destruct (s_intr s0) eqn:X; simpl; congruence). }
     apply reachable_inv in R. split; [apply (inv_flags _ R); auto|].
     intros i t G RT. destruct (inv_tasks _ R _ _ G) as [TO _]. unfold task_ok in TO. rewrite IN in TO.
     destruct TO as (TO & F & C). specialize (F eq_refl RT). specialize (C RT).
@@ -980,10 +982,14 @@ End PROPS.
 Definition witness_intr : list label := [LSubmit true; LIntr 0].
 Definition witness_uaf : list label :=
   [LSubmit true; LIntr 0; LRecv 0; LDispatch 0; LYieldTo 0; LCopy 0; LStart 0].
-Theorem call_returns_after_finish_refuted_pf :
+Theorem call_returns_after_finish_prefix_refuted_pf :
   (exists s t, run (init false 4 1 0 true) witness_intr = Some s /\ gett s 0 = Some t /\ t_ret t = true /\ t_fin t = 0) /\
   (exists s, run (init false 4 1 0 true) witness_uaf = Some s /\ g_uaf s = true).
 Proof. split; [eexists; eexists|eexists]; vm_compute; repeat split; reflexivity. Qed.
+
+Theorem call_interrupt_enabled_pf :
+  exists s s', run (init false 4 1 0 false) [LSubmit true] = Some s /\ step s (LIntr 0) = Some s'.
+Proof. eexists; eexists; vm_compute; split; reflexivity. Qed.
 
 Definition witness_noworker : list label := [LSubmit false; LDBegin; LDFinal].
 Theorem destroy_waits_noworker_refuted_pf :
